@@ -593,14 +593,11 @@ func (x *e1) serverBlind() bool {
 	if x.whereRole("srv.manageReader") != "cond:Put" {
 		return false
 	}
-	// an error returned to one of the server's own transport calls is noticed
-	// (an error attached to data is reported only after the data has been
-	// handed over, which is exactly what the parked reader is still doing)
-	for _, f := range x.sep.Faults {
-		if f.Fired && f.Kind != "peer-close" && f.Kind != "read-err-data" {
-			return false
-		}
-	}
+	// whatever failed on the server's endpoint, the parked reader performs no
+	// transport call that could tell the manager: an error attached to data is
+	// reported only after the data has been handed over (which is what the reader
+	// is still doing), and a failed write is reported to the handler that issued
+	// it - what happens next is up to that handler
 	if _, ok := x.did["serve-cancel"]; ok {
 		return false
 	}
